@@ -2406,6 +2406,9 @@ func c14GenUnit(r *rng, pkg string, nEntry int, hist map[string]int) c14Unit {
 			g.emitf("")
 			entries = append(entries, c14Func{Name: name, Params: []string{"int", "bool"}, Ret: "int"})
 			continue
+		case i%9 == 3 && c14Allow("arrret"): // fixed-size arrays returned among several results
+			entries = append(entries, g.arrayRetEntry(name))
+			continue
 		case i%9 == 4 && c14Allow("recseq"): // several functions with defers / recovers in one invocation
 			entries = append(entries, g.recoverSeqEntry(name))
 			continue
@@ -2667,6 +2670,113 @@ func (g *c14Gen) recoverSeqEntry(name string) c14Func {
 	return c14Func{Name: name, Params: []string{"int", "bool"}, Ret: "int"}
 }
 
+// ---------- fixed-size arrays among several results ----------
+//
+// Go copies an array on assignment, call, range and return. Functions with two or three results, one or two of them a
+// fixed-size array read from a package-level variable, a struct field, a parameter or a local; received as `a, ok := f()`,
+// `a, _ = f()`, `var a, b = f()`, passed on as g(f()), returned through `return f()`. The receiver changes an element,
+// then the source is changed the other way round; both sides are observed after each step. Also the same source as
+// both results, arrays of arrays, and a named array result changed by a deferred closure after the return operands
+// were evaluated. (Structs are left out: their copies are the recorded finding F143.)
+func (g *c14Gen) arrayRetEntry(name string) c14Func {
+	r := g.r
+	g.tag("arrret-entry")
+	n := name
+	c := func() int { return 1 + r.intn(90) }
+	g.emitf("var ag%s = [3]int{%d, %d, %d}", n, c(), c(), c())
+	g.emitf("")
+	g.emitf("type AH%s struct {", n)
+	g.emitf("\tk   int")
+	g.emitf("\tarr [3]int")
+	g.emitf("}")
+	g.emitf("")
+	g.emitf("var ah%s = AH%s{k: %d, arr: [3]int{%d, %d, %d}}", n, n, c(), c(), c(), c())
+	g.emitf("")
+	g.emitf("var aa%s = [2][2]int{{%d, %d}, {%d, %d}}", n, c(), c(), c(), c())
+	g.emitf("")
+	fn := func(sig string, body ...string) {
+		g.emitf("func %s {", sig)
+		for _, l := range body {
+			g.emitf("\t%s", l)
+		}
+		g.emitf("}")
+		g.emitf("")
+	}
+	fn(fmt.Sprintf("afG%s(k int) ([3]int, bool)", n), fmt.Sprintf("return ag%s, k%%2 == 0", n))
+	fn(fmt.Sprintf("afF%s(k int) ([3]int, int)", n), fmt.Sprintf("return ah%s.arr, k%%1000 + 1", n))
+	fn(fmt.Sprintf("afP%s(p [3]int, k int) (int, [3]int)", n), "return k%1000 + 2, p")
+	fn(fmt.Sprintf("afL%s(k int) (bool, [3]int, int)", n), "l := [3]int{k % 1000, 1, 2}", "return k > 0, l, l[0] + 1")
+	fn(fmt.Sprintf("afT%s(k int) ([3]int, [3]int)", n), fmt.Sprintf("return ag%s, ag%s", n, n))
+	fn(fmt.Sprintf("afR%s(k int) ([3]int, bool)", n), fmt.Sprintf("return afG%s(k + 1)", n))
+	fn(fmt.Sprintf("afS%s(a [3]int, ok bool) int", n), "a[0] = a[0] + 1000", "if ok {", "\ta[1] = 0", "}", "return a[0] + a[1]*3 + a[2]*5")
+	fn(fmt.Sprintf("afN%s(k int) ([2][2]int, bool)", n), fmt.Sprintf("return aa%s, k%%3 == 0", n))
+	fn(fmt.Sprintf("afD%s(k int) (res [3]int, cnt int)", n),
+		"defer func() {", "\tres[0] = 7777", "}()", fmt.Sprintf("res = ag%s", n), "res[1] = k % 1000", "return res, k%1000 + 5")
+	// the blocks of the entry function
+	fold := func(xs ...string) string {
+		return fmt.Sprintf("acc = (acc*31 + %s) %% %d", strings.Join(xs, "*7 + "), c14M)
+	}
+	G, H, A := "ag"+n, "ah"+n+".arr", "aa"+n
+	blocks := [][]string{
+		{ // := from a package-level variable
+			fmt.Sprintf("x1, ok1 := afG%s(a)", n), fmt.Sprintf("x1[%d] = %d + a%%7", r.intn(3), 100+c()),
+			fold("x1[0]", "x1[1]", "x1[2]", G+"[0]", G+"[1]", G+"[2]"),
+			fmt.Sprintf("%s[%d] = %d", G, r.intn(3), 200+c()), fold("x1[0]", "x1[1]", "x1[2]", G+"[0]", G+"[1]", G+"[2]"),
+			"if ok1 {", "\tacc++", "}"},
+		{ // = with a blank, from a struct field
+			"var x2 [3]int", fmt.Sprintf("x2, _ = afF%s(a)", n), fmt.Sprintf("x2[%d] = %d", r.intn(3), 300+c()),
+			fold("x2[0]", "x2[1]", "x2[2]", H+"[0]", H+"[1]", H+"[2]"),
+			fmt.Sprintf("%s[%d] = %d", H, r.intn(3), 400+c()), fold("x2[0]", "x2[1]", "x2[2]", H+"[0]", H+"[1]", H+"[2]")},
+		{ // var with several names, from a parameter
+			fmt.Sprintf("src3 := [3]int{a %% 1000, %d, %d}", c(), c()), fmt.Sprintf("var n3, x3 = afP%s(src3, a)", n),
+			fmt.Sprintf("x3[%d] = %d", r.intn(3), 500+c()), fold("n3", "x3[0]", "x3[1]", "x3[2]", "src3[0]", "src3[1]", "src3[2]"),
+			fmt.Sprintf("src3[%d] = %d", r.intn(3), 600+c()), fold("x3[0]", "x3[1]", "x3[2]", "src3[0]", "src3[1]", "src3[2]")},
+		{ // three results, the array in the middle, from a local
+			fmt.Sprintf("ok4, x4, n4 := afL%s(a)", n), "x4[1] = x4[1] + n4", fold("x4[0]", "x4[1]", "x4[2]", "n4"), "if ok4 {", "\tacc += 3", "}"},
+		{ // the same source twice
+			fmt.Sprintf("t1, t2 := afT%s(a)", n), fmt.Sprintf("t1[0] = %d", 700+c()), fmt.Sprintf("t2[0] = %d", 800+c()),
+			fmt.Sprintf("t2[1] = t1[1] + 1"), fold("t1[0]", "t1[1]", "t2[0]", "t2[1]", G+"[0]", G+"[1]")},
+		{ // through return f()
+			fmt.Sprintf("x6, ok6 := afR%s(a)", n), fmt.Sprintf("x6[%d] = %d", r.intn(3), 900+c()),
+			fold("x6[0]", "x6[1]", "x6[2]", G+"[0]", G+"[1]", G+"[2]"), "if ok6 {", "\tacc += 5", "}"},
+		{ // passed on: g(f())
+			fold(fmt.Sprintf("afS%s(afG%s(a))", n, n), G+"[0]", G+"[1]", G+"[2]")},
+	}
+	if c14Allow("arrnest") {
+		blocks = append(blocks, []string{ // arrays of arrays
+			fmt.Sprintf("y8, ok8 := afN%s(a)", n), fmt.Sprintf("y8[%d][%d] = %d", r.intn(2), r.intn(2), 1000+c()),
+			fold("y8[0][0]", "y8[0][1]", "y8[1][0]", "y8[1][1]", A+"[0][0]", A+"[0][1]", A+"[1][0]", A+"[1][1]"),
+			fmt.Sprintf("%s[%d][%d] = %d", A, r.intn(2), r.intn(2), 1100+c()),
+			fold("y8[0][0]", "y8[0][1]", "y8[1][0]", "y8[1][1]", A+"[0][0]", A+"[0][1]", A+"[1][0]", A+"[1][1]"),
+			"if ok8 {", "\tacc += 7", "}"})
+	}
+	if c14Allow("arrnamed") {
+		blocks = append(blocks, []string{ // named array result changed by a deferred closure
+			fmt.Sprintf("x9, n9 := afD%s(a)", n), fmt.Sprintf("x9[2] = %d", 1200+c()),
+			fold("x9[0]", "x9[1]", "x9[2]", "n9", G+"[0]", G+"[1]", G+"[2]")})
+	}
+	for i := len(blocks) - 1; i > 0; i-- {
+		j := r.intn(i + 1)
+		blocks[i], blocks[j] = blocks[j], blocks[i]
+	}
+	g.emitf("func %s(a int, f bool) int {", name)
+	g.indent++
+	g.emitf("acc := a %% 1000")
+	for _, b := range blocks {
+		if r.chance(15) {
+			continue
+		}
+		for _, l := range b {
+			g.emitf("%s", l)
+		}
+	}
+	g.emitf("return acc")
+	g.indent--
+	g.emitf("}")
+	g.emitf("")
+	return c14Func{Name: name, Params: []string{"int", "bool"}, Ret: "int"}
+}
+
 // helper package: every function of it is inlined at its call sites by the compiler
 func c14HelperSrc(name string, r *rng) string {
 	k := 2 + r.intn(5)
@@ -2720,7 +2830,7 @@ func c14Allow(feature string) bool {
 	}
 	// repaired in /repo (F142: default clause not last, F141: function values with several arguments, F157: functions and
 	// variables used only by an init() that is not the last one of its package): generated again
-	if feature == "earlydefault" || feature == "lambda2" || feature == "initusage" || feature == "recseq" || feature == "repanic" {
+	if feature == "earlydefault" || feature == "lambda2" || feature == "initusage" || feature == "recseq" || feature == "repanic" || feature == "arrret" || feature == "arrnest" {
 		return true
 	}
 	for _, f := range strings.Split(os.Getenv("C14_ALLOW"), ",") {
